@@ -53,10 +53,17 @@ def decl_specs(tier):
         specs += [{'c18': [a, b, c]} for a in red for b in red for c in red + ['eos']]
     for names in (['bc4'], ['bc4', 'i2'], ['i2', 'b323'], ['b35', 'bc4'], ['i3s', 'bc4']):
         specs.append({'c18': names, 'opts': {'endianness': 'little'}})
+    # every byte-order spelling, per field and class-wide, on widths with and without a struct code
+    for n in (2, 3, 4):
+        for e in ('big', 'little', 'network', 'local'):
+            for sg in (False, True):
+                specs.append({'c18': ['i1'], 'extra': [('w', I(n, signed=sg, end=e))]})
+            specs.append({'c18': ['b35'], 'extra': [('w', I(n))], 'opts': {'endianness': e}})
     for s in specs:
         fields = []
         for i, cn in enumerate(s['c18']):
             fields.extend(COMPS[cn](i))
+        fields.extend(s.get('extra', []))
         s['P'] = PKT('K', fields, **s.get('opts', {}))
     return specs
 
